@@ -305,6 +305,14 @@ def processConc (h : Hist) (b : Block) (otoks : List String) : Hist :=
     | some (members, counts) =>
       let h := (Spec.quiescentRegistry members counts b.gauge).foldl (fun (h : Hist) (v : String × String) =>
         { h with concViol := h.concViol.push ("C07", v.1, (" ".intercalate b.ev) ++ " :: " ++ v.2) }) h
+      -- C03: a session created within the block that is already out of the registry was taken out by the end of
+      -- another session (the earlier holder of its number): traffic of outsiders changed its state
+      let created := (parseConc b.ev).getD [] |>.filterMap fun (t : Nat × Option Req) =>
+        match t.2 with | some (.join _ _ .new) => some t.1 | _ => none
+      let erased := members.filter fun (m : Nat × Nat × Bool) => !m.2.2 && created.contains m.1
+      let h := if erased.isEmpty then h else
+        { h with concViol := h.concViol.push ("C03", "ended-session-takes-its-successor-down",
+            (" ".intercalate b.ev) ++ s!" :: connections {erased.map Prod.fst} created sessions numbered {erased.map fun (m : Nat × Nat × Bool) => m.2.1} in this block and these are no longer registered: the end of the earlier session with that number removed them") }
       -- C10: a connection living in a session that is not the one registered under the same number
       let twins := members.filter fun (m : Nat × Nat × Bool) => !m.2.2 && counts.any fun (c : Nat × Nat) => c.1 == m.2.1
       if twins.isEmpty then h else
